@@ -8,3 +8,10 @@ pub open spec fn xcall_post(w: World, w2: World, callee: Address, func: int, arg
 pub open spec fn xcall_failed(w: World, w2: World, callee: Address, func: int, args: Seq<SV>) -> bool {
     w2 == (World { calls: w.calls.push(Call { callee: callee, func: func, args: args, ret: SV::Void, ok: false }), ..w })
 }
+
+/// soroban_sdk::Error / soroban_sdk::InvokeError as seen through a generated client's `try_` methods (only their shapes matter)
+pub struct SdkError { pub code: u32 }
+pub enum InvokeError { Abort, Contract(u32) }
+// For every client method `m` of a model fragment whose contract is the generic `xcall_post`, vx.py derives the SDK's `try_m`
+// mechanically (same callee, function and arguments): Ok(Ok(v)) = the call returned v; Ok(Err(_)) = it returned a value that
+// does not convert; Err(_) = the callee failed, its effects are rolled back, the caller goes on (`xcall_failed`).
